@@ -176,6 +176,11 @@ impl CodeFormatter {
             // Determine if we need some additional newlines before this token
             if let Token::Error(_) = token {
                 // Don't do anything special
+            } else if let (Some(Token::Label { block: None, .. }), false) = (
+                token_idx.checked_sub(1).and_then(|idx| tokens.get(idx)),
+                matches!(token, Token::Eof(_)),
+            ) {
+                // A plain label belongs to the statement that follows it, so nothing separates the two
             } else if let Some(prev_token) = if token_idx > 0 {
                 tokens.get(token_idx - 1)
             } else {
